@@ -27,34 +27,145 @@ theorem serializable (base : Nat) (pubs : List Pub) (hf : Fresh pubs) (sched : L
     (∀ i e, (i, e) ∈ s.hist → ∃ p, s.pubs[i]? = some p ∧ p.pc = .done e) ∧
     (∀ i p e, s.pubs[i]? = some p → p.pc = .done e → p.changes = true → (i, e) ∈ s.hist) ∧
     (∀ i j e, (i, e) ∈ s.hist → (j, e) ∈ s.hist → i = j) := by
-  sorry
+  intro s
+  have hI : Inv base s := inv_reach base pubs hf sched
+  refine ⟨hI.hCons, hI.hEpoch, ?_, hI.hDoneHist, ?_⟩
+  · intro i e h
+    obtain ⟨p, hp, hd, _⟩ := hI.hHistDone i e h
+    exact ⟨p, hp, hd⟩
+  · intro i j e hi hj
+    obtain ⟨k, hk, hke⟩ := List.mem_iff_getElem.1 hi
+    obtain ⟨k', hk', hke'⟩ := List.mem_iff_getElem.1 hj
+    have h1 := hI.hCons k hk
+    have h2 := hI.hCons k' hk'
+    rw [hke] at h1
+    rw [hke'] at h2
+    have : k = k' := by simp at h1 h2; omega
+    subst this
+    rw [hke] at hke'
+    exact (Prod.mk.inj hke').1
 
 /-- a no-op publish returns the epoch that was current while it held the lock and leaves no trace -/
 theorem noop_no_effect (base : Nat) (pubs : List Pub) (hf : Fresh pubs) (sched : List Nat) (i : Nat) (p : Pub) (e : Nat)
     (hp : (run .fixed (init base pubs) sched).pubs[i]? = some p) (hd : p.pc = .done e) (hc : p.changes = false) :
     (∀ e', (i, e') ∉ (run .fixed (init base pubs) sched).hist) ∧ base ≤ e ∧
       e ≤ (run .fixed (init base pubs) sched).epoch := by
-  sorry
+  have hI : Inv base (run .fixed (init base pubs) sched) := inv_reach base pubs hf sched
+  refine ⟨?_, hI.hNoop i p e hp hd hc⟩
+  intro e' hmem
+  obtain ⟨q, hq, _, hqc⟩ := hI.hHistDone i e' hmem
+  rw [hp] at hq
+  cases hq
+  rw [hc] at hqc
+  cases hqc
 
 /-- no deadlock: from every reachable state of the repaired protocol that is not finished, some
 publisher is enabled -/
 theorem progress (base : Nat) (pubs : List Pub) (hf : Fresh pubs) (sched : List Nat) :
     let s := run .fixed (init base pubs) sched
     finished s = false → ∃ i, (step .fixed s i).isSome := by
-  sorry
+  intro s hfin
+  have hI : Inv base s := inv_reach base pubs hf sched
+  cases hl : s.lock with
+  | some h =>
+    -- the holder of the mutex can move
+    obtain ⟨p, hp, hc⟩ := hI.hLockCrit h hl
+    refine ⟨h, ?_⟩
+    unfold step
+    simp only [hp]
+    cases hpc : p.pc with
+    | readEpoch => simp
+    | readVersions => cases hch : p.changes <;> simp
+    | inserting k => cases k <;> simp
+    | commitWrite => simp
+    | start => simp [hpc] at hc
+    | readRoot => simp [hpc] at hc
+    | done e => simp [hpc] at hc
+    | refused => simp [hpc] at hc
+  | none =>
+    -- nobody holds the mutex: a publisher that has not returned is still at `start`
+    unfold finished at hfin
+    rw [List.all_eq_false] at hfin
+    obtain ⟨p, hmem, hnd⟩ := hfin
+    obtain ⟨i, hi, hip⟩ := List.mem_iff_getElem.1 hmem
+    have hp : s.pubs[i]? = some p := by rw [List.getElem?_eq_getElem hi, hip]
+    have hbad := hI.hNoBad i p hp
+    refine ⟨i, ?_⟩
+    unfold step
+    simp only [hp]
+    cases hpc : p.pc with
+    | start => simp [hl]
+    | readEpoch => have := hI.hCritLock i p hp (by simp [hpc]); rw [hl] at this; cases this
+    | readVersions => have := hI.hCritLock i p hp (by simp [hpc]); rw [hl] at this; cases this
+    | inserting k => have := hI.hCritLock i p hp (by simp [hpc]); rw [hl] at this; cases this
+    | commitWrite => have := hI.hCritLock i p hp (by simp [hpc]); rw [hl] at this; cases this
+    | readRoot => exact absurd hpc hbad.2
+    | done e => simp [hpc] at hnd
+    | refused => exact absurd hpc hbad.1
 
 /-- **the pinned commit loses an epoch**: two publishers, one schedule, both return epoch base+1 -/
 theorem lost_epoch_witness :
     ∃ sched : List Nat,
       let s := run .legacy (init 0 [{}, {}]) sched
       finished s = true ∧ s.hist = [(1, 1), (0, 1)] ∧
-      s.pubs.map (·.pc) = [.done 1, .done 1] := by
-  sorry
+      s.pubs.map (·.pc) = [.done 1, .done 1] :=
+  ⟨[0, 0, 0, 0, 1, 1, 1, 1, 1, 1, 0, 0], by decide⟩
 
 /-- a trace accepted by `validate` commits consecutive epochs, each task at most once per critical section -/
 theorem validate_consecutive (base : Nat) (tr : List (Nat × Ev)) (v : VState)
     (h : validate base tr = .ok v) :
-    (∀ k (hk : k < v.outcomes.length), (v.outcomes[k]).2 = base + k + 1) ∧ v.epoch = base + v.outcomes.length := by
-  sorry
+    (∀ k (hk : k < v.outcomes.length), (v.outcomes[k]).2 = base + k + 1) ∧ v.epoch = base + v.outcomes.length :=
+  vinv_foldlM (base := base) (v0 := { epoch := base }) tr
+    (And.intro (fun k hk => absurd hk (Nat.not_lt_zero k)) rfl) h
+
+/-! ### non-vacuity -/
+
+/-- three publishers (the second one a no-op, the third with three node reads), interleaved schedule
+with blocked attempts: the no-op returns the epoch 5 it saw, the two effective batches commit 6 and 7 -/
+example :
+    let s := run .fixed (init 5 [{}, { changes := false }, { reads := 3 }])
+      [1, 0, 2, 1, 0, 1, 0, 2, 0, 2, 0, 0, 2, 0, 0, 2, 1, 2, 2, 0, 2, 2, 2, 2, 2, 2]
+    finished s = true ∧ s.hist = [(0, 6), (2, 7)] ∧ s.epoch = 7 ∧ s.lock = none ∧
+      s.pubs.map (·.pc) = [.done 6, .done 5, .done 7] := by
+  decide
+
+/-- the same three publishers run one after the other -/
+example :
+    (run .fixed (init 0 [{}, {}, {}]) [2, 2, 2, 2, 2, 2, 0, 0, 0, 0, 0, 0, 1, 1, 1, 1, 1, 1]).hist = [(2, 1), (0, 2), (1, 3)] := by
+  decide
+
+/-- the schedule that breaks the pinned commit is harmless for the repaired protocol: publisher 1 is
+blocked until publisher 0 has committed -/
+example :
+    let s := run .fixed (init 0 [{}, {}]) [0, 0, 0, 0, 1, 1, 1, 1, 1, 1, 0, 0, 1, 1, 1, 1, 1, 1]
+    finished s = true ∧ s.hist = [(0, 1), (1, 2)] := by
+  decide
+
+private def okOf : Except String VState → Option (Nat × Option Nat × List (Nat × Nat))
+  | .ok v => some (v.epoch, v.holder, v.outcomes)
+  | .error _ => none
+
+/-- an accepted trace: two tasks one after the other -/
+example :
+    okOf (validate 3 [(0, .getAzks 3), (0, .read), (0, .read), (0, .commit 4),
+                      (1, .getAzks 4), (1, .read), (1, .commit 5)]) = some (5, none, [(0, 4), (1, 5)]) := by
+  decide
+
+/-- rejected: task 1 reads inside the critical section of task 0 -/
+example : okOf (validate 3 [(0, .getAzks 3), (1, .getAzks 3), (0, .commit 4), (1, .commit 4)]) = none := by
+  decide
+
+/-- rejected: the lost-epoch trace of the pinned commit (both commits carry epoch 4) -/
+example : okOf (validate 3 [(0, .getAzks 3), (0, .commit 4), (1, .commit 4)]) = none := by
+  decide
+
+/-- rejected: stale epoch read -/
+example : okOf (validate 3 [(0, .getAzks 2)]) = none := by
+  decide
+
+/-- remark: the validator has no event for the return of a no-op publish (which issues no commit), so
+it is conservative there: after a no-op publish of task 0 the next task is reported as overlapping -/
+example : okOf (validate 3 [(0, .getAzks 3), (0, .read), (1, .getAzks 3), (1, .commit 4)]) = none := by
+  decide
 
 end Akd.Conc
